@@ -19,6 +19,15 @@ def inRoom (h : Hub) (b : Nat) (r : String) (s : Nat) : Bool :=
   | some x => x.backend = b && x.room = some r
   | none => false
 
+/-- C19: the virtual sessions that were part of a room before a step and exist no more after it,
+with the room they were in: the removals the backend has to be told about. -/
+def goneVirtual (pre post : Hub) : List (String × Nat) :=
+  (sids pre).filterMap fun v =>
+    match pre.sess v with
+    | some x =>
+      if x.kind = .virtual && (post.sess v).isNone then x.room.map (fun r => (r, v)) else none
+    | none => none
+
 /-- C05: the set of sessions a message from `s` to recipient `rc` is addressed to.
 Virtual sessions have no connection of their own: what is addressed to them is
 delivered to their internal client (with the recipient rewritten). Sessions that
